@@ -51,6 +51,21 @@ let rec parse_op (s : string) : op =
   | ["rc"; a; b'; m; f] -> OReplaceCh (num a, num b', num m, num f)
   | ["rs"; a; b'; m; f] -> OReplaceS (sarg a, sarg b', num m, num f)
   | ["uf"; x] -> OUnflatten (bytes_of_hex x)
+  | ["set"; i; ch] -> OSetAt (num i, num ch)
+  | ["<<i"; z] -> OShiftInt (z_of_int (int_of_string z))
+  | ["<<b"; x] -> OShiftBool (b x)
+  | ["++"] -> OAppendCh (n_of_int 32)
+  | ["--"] -> OTruncChars (n_of_int 1)
+  | ["eqh"; ch] -> OEqualsCh (num ch)
+  | ["eqhi"; ch] -> OEqualsChI (num ch)
+  | ["swhi"; ch] -> OStartsChI (num ch)
+  | ["ewhi"; ch] -> OEndsChI (num ch)
+  | ["wsfh"; ch] -> OWithSuffixCh (num ch)
+  | ["wpfh"; ch] -> OWithPrefixCh (num ch)
+  | ["wosfi"; a; m] -> OWithoutSuffixSI (sarg a, num m)
+  | ["wopfi"; a; m] -> OWithoutPrefixSI (sarg a, num m)
+  | ["woshi"; ch; m] -> OWithoutSuffixChI (num ch, num m)
+  | ["wophi"; ch; m] -> OWithoutPrefixChI (num ch, num m)
   | ["at"; i] -> OCharAt (num i)
   | ["ioh"; ch; f] -> OIndexOfCh (num ch, num f)
   | ["ios"; a; f] -> OIndexOfS (sarg a, num f)
@@ -129,6 +144,7 @@ let () =
     | None -> ()
     | Some p ->
       let body = String.sub line (p+1) (String.length line - p - 1) in
+      let nul_stream = (String.sub line 0 p = "nul") in   (* embedded NULs: outside the domain of level 0 *)
       let ops = List.filter (fun s -> s <> "") (String.split_on_char ';' body) in
       let buf = Buffer.create 256 in
       let s = ref (empty1 m_ jk) and l = ref [] in
@@ -139,7 +155,7 @@ let () =
         let (l', r0) = step0 !l o in
         (* level 0 has no capacity: an error status of a capacity-limited operation (not of Unflatten) is outside its domain *)
         let cap_err = (r = R1St StErr) && (match o with OUnflatten _ -> false | _ -> true) in
-        if !bad = None && not cap_err && (abs_out m_ r <> r0 || abs m_ s' <> l') then bad := Some (n, os);
+        if !bad = None && not cap_err && not nul_stream && (abs_out m_ r <> r0 || abs m_ s' <> l') then bad := Some (n, os);
         s := s'; l := abs m_ s';     (* level 0 follows level 1 so that one deviation is reported once *)
         Buffer.add_string buf (show_out1 r); Buffer.add_char buf ' ';
         Buffer.add_string buf (show_state s'); Buffer.add_char buf ';') ops;
